@@ -12,6 +12,8 @@ import random
 
 ID = "C10"
 LEVEL = "exploration"
+SUITE_UNDER_MONITORS = True  # thorough tier: the unedited repository tests run with this property's contracts loaded
+SUITE_CONTRACTS = ("a1_inverse",)
 CONTRACTS = ("a1_inverse",)
 REACH = {"xl_col_to_name": "xl_col_to_name", "xl_rowcol_to_cell": "xl_rowcol_to_cell",
          "xl_cell_to_rowcol": "xl_cell_to_rowcol", "xl_range": "xl_range", "col_to_index": "tokenizer.col_to_index"}
